@@ -43,7 +43,7 @@ func w2Gen(r *rand.Rand, prop, tier string) *simrt.Case {
 				case 0, 1:
 					c.Program = append(c.Program, simrt.Op{Actor: m, Kind: "commit", B: int64(r.IntN(4)), C: int64(r.IntN(3))})
 				case 2, 3:
-					c.Program = append(c.Program, simrt.Op{Actor: m, Kind: "ofetch", A: int64(r.IntN(len(w2Groups))), B: int64(r.IntN(4)), C: int64(r.IntN(3))})
+					c.Program = append(c.Program, simrt.Op{Actor: m, Kind: "ofetch", A: int64(r.IntN(len(w2Groups))), B: int64(r.IntN(4)), C: int64(r.IntN(3)), D: int64(r.IntN(3))})
 				default:
 					c.Program = append(c.Program, simrt.Op{Actor: m, Kind: "hb"})
 				}
@@ -55,7 +55,7 @@ func w2Gen(r *rand.Rand, prop, tier string) *simrt.Case {
 		}
 		// a reader after everything settled (sequential: exact last-commit semantics)
 		for i := 0; i < 6+r.IntN(8); i++ {
-			c.Program = append(c.Program, simrt.Op{Actor: 100, Kind: "ofetch", A: int64(r.IntN(len(w2Groups))), B: int64(r.IntN(4)), C: int64(r.IntN(3))})
+			c.Program = append(c.Program, simrt.Op{Actor: 100, Kind: "ofetch", A: int64(r.IntN(len(w2Groups))), B: int64(r.IntN(4)), C: int64(r.IntN(3)), D: int64(r.IntN(3))})
 		}
 	case "C13":
 		g := int64(r.IntN(2))
